@@ -122,7 +122,7 @@ func suiteFilter(h *H) {
 					if !plain {
 						break
 					}
-					want := !excludedBy(rules, e.path)
+					want := !excludedByKind(rules, e.path, e.kind == 'd')
 					if want != got[e.path] && v == "" {
 						if want {
 							v = fmt.Sprintf("FAIL entry %q is not excluded by the first matching rule but was left out", e.path)
@@ -176,6 +176,8 @@ func suiteFilter(h *H) {
 	for _, n := range []string{"a", "b", "c", "sub"} {
 		pool = append(pool, "- "+n, "+ "+n)
 	}
+	// the same names restricted to directories: a list may name one pattern in both forms, and both rules count
+	pool = append(pool, "- a/", "+ a/", "- b/", "- sub/")
 	for kmask := 0; kmask < 8; kmask++ {
 		run(nil, mkTree(kmask))
 		for _, r1 := range pool {
@@ -229,6 +231,10 @@ func suiteFilter(h *H) {
 				rules = append(rules, "- "+n+"*") // wildcard: must be refused
 			case 3:
 				rules = append(rules, "- a/"+n) // pattern with a slash: matches the full name
+			case 4:
+				rules = append(rules, "- "+n+"/") // directories only
+			case 5:
+				rules = append(rules, "+ "+n+"/")
 			default:
 				rules = append(rules, "- "+n)
 			}
